@@ -191,6 +191,9 @@ def cvc5_check(smt2, timeout_s):
         os.unlink(p)
 
 
+_XCHECK = {"left": 120.0, "done": 0}  # per lemma process: seconds left for cvc5 cross-checks of z3 proofs (thorough tier)
+
+
 def discharge(I, ob, z3_timeout_s, cvc5_timeout_s, both=False):
     t0 = time.time()
     goal = ob.goal
@@ -265,8 +268,12 @@ def discharge(I, ob, z3_timeout_s, cvc5_timeout_s, both=False):
     ob.backend = "z3"
     if r == z3.unsat:
         ob.status = "discharged"
-        if both:
-            c = cvc5_check(s.to_smt2(), cvc5_timeout_s)
+        if both and _XCHECK["left"] > 0:
+            # thorough tier: second opinion from cvc5 on what z3 proved, within a per-lemma time budget
+            tx = time.time()
+            c = cvc5_check(s.to_smt2(), min(cvc5_timeout_s, 10))
+            _XCHECK["left"] -= time.time() - tx
+            _XCHECK["done"] += 1
             ob.cvc5 = c
             if c == "sat":
                 ob.status = "undecided"
@@ -339,6 +346,7 @@ def run_lemma(path, lemma_name, tier="quick"):
     def _alarm(signum, frame):
         raise TimeoutError("lemma wall-clock budget exceeded")
 
+    _XCHECK["left"], _XCHECK["done"] = 120.0, 0
     budget = int(os.environ.get("PYVC_LEMMA_BUDGET", "240" if tier == "quick" else "1800"))
     try:
         signal.signal(signal.SIGALRM, _alarm)
@@ -382,7 +390,10 @@ def run_lemma(path, lemma_name, tier="quick"):
                 I.oblige(st1, False, "uncaught-%s" % ctrl[1].name, "no-exception", note="uncaught %s%s" % (ctrl[1].name, _excargs(ctrl[1])))
             else:
                 ends.append(list(st1.pc))
-        zt, ct = (10, 20) if tier == "quick" else (60, 120)
+        # the z3 API does not reliably honour long timeouts on nonlinear goals (a 60 s limit ran for > 30 min): both tiers use
+        # the short limits first; the x10 retry stage and (thorough) the cvc5 cross-check give the extra depth
+        zt, ct = (10, 20)
+        zt, ct = int(os.environ.get("PYVC_ZT", zt)), int(os.environ.get("PYVC_CT", ct))
         zt = opts.get("timeout", zt)
         for ob in I.obligations:
             discharge(I, ob, zt, ct, both=(tier == "thorough"))
